@@ -7,6 +7,7 @@ import (
 	"os"
 	"reflect"
 	"runtime"
+	"runtime/debug"
 	"sort"
 	"strings"
 	"sync"
@@ -14,6 +15,7 @@ import (
 	"testing"
 
 	mocker "github.com/tencent/goom"
+	"github.com/tencent/goom/internal/bytecode/memory"
 	"github.com/tencent/goom/zzverif/vmon"
 )
 
@@ -43,7 +45,12 @@ type CbState struct {
 }
 
 func (s *CbState) Record(enc string) { s.mu.Lock(); s.Last = enc; s.mu.Unlock() }
-func (s *CbState) Reset()             { atomic.StoreInt64(&s.Hits, 0); s.mu.Lock(); s.Last = "<none>"; s.mu.Unlock() }
+func (s *CbState) Reset() {
+	atomic.StoreInt64(&s.Hits, 0)
+	s.mu.Lock()
+	s.Last = "<none>"
+	s.mu.Unlock()
+}
 
 func encAll(vs ...interface{}) string {
 	var sb strings.Builder
@@ -86,7 +93,7 @@ func descend(d int, f func()) int {
 
 type outcome struct {
 	args, res string
-	pan      interface{}
+	pan       interface{}
 }
 
 func runCase(c *Case, form string, tuple int) (o outcome) {
@@ -236,6 +243,90 @@ func TestC01(t *testing.T) {
 	}
 	runtime.ReadMemStats(&ms)
 	rep.Stat("gc_cycles_observed", int64(ms.NumGC-gc0))
+}
+
+// installDropped installs the mock with a builder nobody keeps: from here on only goom itself and the machine code
+// refer to the replacement.
+//
+//go:noinline
+func installDropped(c *Case, mode string, st *CbState) (perr interface{}) {
+	defer func() { perr = recover() }()
+	b := mocker.Create()
+	if mode == "Apply" {
+		c.InstallApply(b, st)
+	} else {
+		c.InstallReturn(b)
+	}
+	return nil
+}
+
+// TestC01DroppedBuilder: the mock must keep working across collections although the user dropped the builder.
+func TestC01DroppedBuilder(t *testing.T) {
+	rep := vmon.NewReport("C01")
+	defer rep.Write()
+	shard, nshards := vmon.Shard()
+	img := vmon.SnapshotText()
+	gc := vmon.NewGCMon()
+	sort.Slice(Cases, func(i, j int) bool { return Cases[i].Name < Cases[j].Name })
+	for ci, c := range Cases {
+		if ci%nshards != shard || ci%3 != 0 {
+			continue
+		}
+		for _, mode := range []string{"Apply", "Return"} {
+			st := &CbState{}
+			hits0 := c.OrigHits()
+			info := map[string]interface{}{"target": c.Name, "abi": c.ABIClass, "mock": mode, "builder": "dropped"}
+			rep.Journal(map[string]interface{}{"case": c.Name, "mode": mode, "dropped": true, "crashkey": "C01/crash"})
+			gcp := debug.SetGCPercent(-1)
+			perr := installDropped(c, mode, st)
+			entry := c.Entry()
+			var obj uintptr
+			if perr == nil {
+				if j := vmon.DecodeJumpAt(entry); j.Kind == vmon.JumpEntry && gc.Arm(j.Ctx, c.Name+"/"+mode+"/dropped") {
+					obj = j.Ctx
+					rep.Stat("gc_monitors_armed_dropped_builder", 1)
+				}
+			}
+			debug.SetGCPercent(gcp)
+			if perr != nil {
+				rep.Violate("C01/mock-rejected", fmt.Sprintf("%s: %v", c.Name, perr), info)
+				continue
+			}
+			runtime.GC()
+			vmon.Churn(3000)
+			fired, _ := gc.Collect()
+			if len(fired) > 0 {
+				rep.Violate("C01/replacement-collected", fmt.Sprintf("%s (%s): the builder was dropped and the collector freed %v while the entry jump that embeds its address is installed", c.Name, mode, fired), info)
+			} else {
+				vmon.Churn(3000)
+				for _, form := range []string{"direct", "callers", "go"} {
+					for tuple := 0; tuple < 2; tuple++ {
+						st.Reset()
+						o := runCase(c, form, tuple)
+						rep.Eval(1)
+						bad := o.pan != nil || c.OrigHits() != hits0 || (o.res != "<discarded>" && o.res != c.MockRes())
+						if mode == "Apply" && !bad {
+							bad = atomic.LoadInt64(&st.Hits) != 1 || st.Last != o.args
+						}
+						if bad {
+							rep.Violate("C01/mock-lost-after-builder-dropped", fmt.Sprintf("%s via %s (%s): after the builder was dropped and collections ran: panic %v, original hits +%d, results %s", c.Name, form, mode, o.pan, c.OrigHits()-hits0, short(o.res)), info)
+							break
+						}
+					}
+				}
+			}
+			if obj != 0 {
+				gc.Disarm(obj)
+			}
+			// no builder is left to reset with: put the pristine entry bytes back through goom's own writer
+			memory.WriteTo(entry, img.Pristine(entry, 13))
+			if o := runCase(c, "direct", 0); o.pan != nil || o.res != c.OrigRes() {
+				rep.Violate("C01/harness-restore", fmt.Sprintf("%s not original after restoring the entry bytes: %v", c.Name, o.pan), info)
+			}
+			hits0 = c.OrigHits()
+			rep.Class("dropped-builder/" + mode)
+		}
+	}
 }
 
 // ---- library call forms and pointers into a moving stack (hand-written)
